@@ -19,6 +19,9 @@ def prop_rewrites(p, fresh, nested=False):
     if a[0] == 'v' and b[0] == 'comb':
       out.append(('combine-syntax', [('eq', a, ('comb', b[1], b[2], b[3], 1 - b[4]), p[3])]))
       out.append(('combine-syntax', [('aggeq', a[1], b[1], b[2], b[3])]))
+  elif t == 'cmp' and p[1][0] == 'bin' and p[1][1] == '==' and not nested:
+    # `=` equals `==` in propositions, whatever stands on its left (a comparison of two bound expressions)
+    out.append(('=/==', [('eq', p[1][2], p[1][3], '=')]))
   elif t == 'aggeq':
     out.append(('combine-syntax', [('eq', ('v', p[1]), ('comb', p[2], p[3], p[4], 0), '==')]))
     out.append(('combine-syntax', [('eq', ('v', p[1]), ('comb', p[2], p[3], p[4], 1), '==')]))
